@@ -258,12 +258,11 @@ pub fn make_case(seed: u64, run: u64, thorough: bool, _stats: &mut Stats) -> Opt
         if r.chance(45) && !ex.is_empty() {
             ex[r.usize_below(ex.len())].clone()
         } else {
-            let cfg = GenCfg {
-                feat: Feat::swarm(r, 55),
-                layout: Layout::swarm(r),
-                body_lo: 1,
-                body_hi: *r.pick(&[4, 10, 25]),
-            };
+            let mut feat = Feat::swarm(r, 55);
+            // programs that switch single-stepping on by themselves (and may leave it on to the end)
+            feat.tf = r.chance(20);
+            feat.flags_under_tf = true;
+            let cfg = GenCfg { feat, layout: Layout::swarm(r), body_lo: 1, body_hi: *r.pick(&[4, 10, 25]) };
             let mut pr = r.fork("program");
             let p = generate(&mut pr, &cfg);
             ("generated".to_owned(), p.render().into_bytes())
